@@ -232,11 +232,13 @@ class StringsGen(Pool):
 # ---------------------------------------------------------------------------
 # multi-connection paths (TLC-generated <<conn, argv>> sequences), sequential replay
 # ---------------------------------------------------------------------------
-def replay_conn_paths(ctx, srv, paths, label='gen', password=None):
+def replay_conn_paths(ctx, srv, paths, label='gen', password=None, header=None, dump_dbs=None):
     i = 0
     ok = True
     while i < len(paths) and ok:
         s = fresh_session(ctx, srv, label)
+        for ev in (header or []):
+            s.trace.emit(ev)
         try:
             while i < len(paths) and s.trace.n < CHUNK:
                 admin = s.open()
@@ -252,6 +254,12 @@ def replay_conn_paths(ctx, srv, paths, label='gen', password=None):
                 for c in list(cmap.values()):
                     if c in s.clients:
                         s.close(c)
+                if dump_dbs:
+                    admin = s.open()
+                    for d in dump_dbs:
+                        s.cmd(admin, [b'SELECT', str(d).encode()])
+                        dump_db(s, admin)
+                    s.close(admin)
                 i += 1
         except ServerDied:
             ok = False
